@@ -295,7 +295,7 @@ def check_placeholders(ctx: Ctx) -> None:
             if isinstance(c.func, ast.Attribute) and c.func.attr == "replace" and len(c.args) == 2:
                 res_t.add(str_template(prog, f, c.args[0], n))
             t = prog.resolve_call(f, c)
-            if isinstance(t, list) and len(t) == 1 and t[0].module is f.module:
+            if isinstance(t, list) and len(t) == 1:
                 work.append(t[0])
     want_t = (("c", pre), ("h",), ("c", suf)) if isinstance(pre, str) and isinstance(suf, str) else None
     ctx.ob("R-LOSSLESS-L5", f"{TW} :: extract and restore spell placeholders alike",
